@@ -62,6 +62,17 @@ fn main() {
         let code = rv::c12::case_main(&args.extra[0], k, &args.extra[2]);
         std::process::exit(code);
     }
+    if cmd == "runxml" {
+        // debugging aid: rv runxml <file.scxml> [event…] prints the recorded log of one run
+        let xml = std::fs::read_to_string(&args.extra[0]).expect("file");
+        let path: Vec<String> = args.extra[1..].to_vec();
+        let res = rv::session::run_doc(&xml, &path);
+        eprintln!("status: {:?}", res.status);
+        for e in &res.log {
+            eprintln!("{}", e.line());
+        }
+        std::process::exit(0);
+    }
     if cmd == "selftest" {
         let mut failed = false;
         for (name, r) in rv::selftests() {
